@@ -31,6 +31,14 @@ Implementation driven (all in-process, real code):
     parse_environment_dicts on generated sets of environments (many without variables), application dependencies and virtual
     environments, against coq/Dosini/Envs.v; and the section readers (dosini_to_dict, environment_to_dict) on tables with
     empty sections;
+ R. descriptions written into a directory that ALREADY holds the files of one or two earlier descriptions (the same workflow with more
+    stages / more components / another platform and other variables, the same one, unrelated short and long ones), instance flavour
+    with update_existing True (the loaded description is the LAST one written: full predicate) and False (every file that exists is
+    kept, the missing ones are written), package flavour (the re-written directory loads like a directory written once); the
+    directory before / after and the files of the same write into an empty directory are compared with coq/Dosini/Rewrite.v (dump_dir);
+    C/L/D/R also: variables whose values are YAML scalars of every TYPE (bool, int, float, texts that look like them) at every scope
+    (global, stage, both, platform global / stage, component) in half of the workflows, referenced by arguments; the [META] section of
+    every written stage file is compared with Rewrite.meta_via_file (typed variables -> str -> text layer);
  T. the configparser text layer alone (harness/c19_text.py): tables of sections through the real FlowConfigParser
     (add_section/set/write, read) and hostile raw texts through its reader, against coq/Dosini/Text.v.
 The per-component model comparison of C/D goes through both layers (Model.via_file).
@@ -78,6 +86,12 @@ ASSUMPTIONS = [
     'with .get(key, [])); environment names are compared ignoring case (FlowIR looks them up lower-cased); environments named like the '
     'reserved section SANDBOX or equal to another one ignoring case are outside the guard of C19_environments_through_file and only '
     'compared with the model (stream E); a stage without components below the last stage is open finding F19i',
+    'a variable holding None is no description (FlowIR rejects it): not generated; sequences of writes into one directory are of one '
+    'flavour (instance or package) and every earlier write uses update_existing=True; status.conf / output.conf stand for the files an '
+    'instance inherits from its package (written by the harness next to Dosini.dump when the write updates the directory or they are '
+    'missing); the reference "files of the same write into an empty directory" of an instance is taken in a directory that holds the '
+    'variables files already (an instance never rewrites them; the write that creates variables.conf folds the blueprint of a stage '
+    'into the variables of the stage, see Rewrite.check_meta_case)',
     'stage indices spelled as text (stage10, STAGE10): int() is modelled for decimal digits (coq/Dosini/Stages.v); a sign, blanks or '
     '_ separators after the word stage are not generated',
 ]
@@ -1294,7 +1308,11 @@ def run(ctx):
                 'variable, component or entry; distinct by content; A also: per backend of the running code and per name of its option '
                 'table a component of that backend (option or variable), P: a component of each backend loaded first, then probe components '
                 'holding every backend option name; C/D/L: environments without variables in half of the workflows, other EMPTY members '
-                '(stage variables, blueprint, executors, output/status sections and entries, empty lists) in 35%, a stage without components in 4%')
+                '(stage variables, blueprint, executors, output/status sections and entries, empty lists) in 35%, a stage without components in 4%; '
+                'typed variables (bool/int/float/number-like texts at 1..6 scopes, REF_VARS retyped in half of them) in 50% of the C/L/D/R workflows; '
+                'R: 28 sequences per quick run (20 instance - every 4th with update_existing=False - and 8 package; relation of the earlier '
+                'description cycled over more-stages x2, more-components, other-platform, same, other, other-long; 30% with a second earlier one) '
+                '+ update_existing=False into an empty directory')
     gen_path = os.path.join(common.COQ, COQ_DIR, 'Generated.v')
     ctx.extra['generated_tables'] = {
         'regenerated_before_proof_build': True,
